@@ -19,6 +19,18 @@ Record hstate := mkH {
   hs_down : bool;                (* the process crashed and has not run RecoverSwaps yet *)
   hs_trace : list effect }.      (* everything that happened, oldest first *)
 
+(* the data of the last DURABLE record while walking a trace *)
+Definition lp_step (lp : swap_data) (e : effect) : swap_data :=
+  match e with EPersist _ d true => d | _ => lp end.
+Definition lp_end (lp : swap_data) (es : list effect) : swap_data := fold_left lp_step es lp.
+
+(* boolean trace monitor: every effect is checked against the record that was durable when it happened *)
+Fixpoint trace_okb (Pb : swap_data -> effect -> bool) (lp : swap_data) (es : list effect) : bool :=
+  match es with
+  | [] => true
+  | e :: r => Pb lp e && trace_okb Pb (lp_step lp e) r
+  end.
+
 Definition last_persist (es : list effect) : option (string * swap_data) :=
   fold_left (fun acc e => match e with EPersist s d true => Some (s, d) | _ => acc end) es None.
 
@@ -68,40 +80,36 @@ Variable decode : string -> option (string * Z * Z).
 Variable t : table.
 Variable terminal : list string.
 
+Definition item_input (it : hitem) : input := match it with HStep i _ | HCrash i _ _ => i end.
+Definition is_recover (i : input) : bool := match i with InRecover => true | _ => false end.
+
 Definition hist_step (h : hstate) (it : hitem) : hstate :=
   match hs_machine h with
   | None => h
-  | Some m =>
-    match it with
-    | HStep InRecover w =>
-        (* RecoverSwaps always starts from the stored record *)
-        match restore m (hs_trace h) with
-        | None => mkH None false false false false (hs_trace h)
-        | Some mr =>
-          let '(o, _, es) := run_step tc decode t terminal mr InRecover w in
-          mkH (Some (o_machine o)) (existsb is_watch_conf es) (existsb is_watch_csv es) (existsb is_arm_timer es)
+  | Some m0 =>
+    (* RecoverSwaps always starts from the stored record; a restart is a new process *)
+    let restartp := is_recover (item_input it) in
+    match (if restartp then restore m0 (hs_trace h) else Some m0) with
+    | None => mkH None false false false false (hs_trace h)
+    | Some m =>
+      let cw := if restartp then false else hs_conf_watch h in
+      let sw := if restartp then false else hs_csv_watch h in
+      let tm := if restartp then false else hs_timer h in
+      match it with
+      | HStep i w =>
+          let '(o, _, es) := run_step tc decode t terminal m i w in
+          mkH (Some (o_machine o))
+              (cw || existsb is_watch_conf es) (sw || existsb is_watch_csv es) (tm || existsb is_arm_timer es)
               false (hs_trace h ++ es)
-        end
-    | HStep i w =>
-        let '(o, _, es) := run_step tc decode t terminal m i w in
-        let restartp := false in
-        (* a restart is a new process: earlier registrations are gone *)
-        let cw := if restartp then false else hs_conf_watch h in
-        let sw := if restartp then false else hs_csv_watch h in
-        let tm := if restartp then false else hs_timer h in
-        mkH (Some (o_machine o))
-            (cw || existsb is_watch_conf es) (sw || existsb is_watch_csv es) (tm || existsb is_arm_timer es)
-            false (hs_trace h ++ es)
-    | HCrash i w k =>
-        let '(_, _, es) := run_step tc decode t terminal m i w in
-        let tr := hs_trace h ++ firstn k es in
-        mkH (restore m tr) false false false true tr
+      | HCrash i w k =>
+          let '(_, _, es) := run_step tc decode t terminal m i w in
+          let tr := hs_trace h ++ firstn k es in
+          mkH (restore m tr) false false false true tr
+      end
     end
   end.
 
 Definition run_hist (h0 : hstate) (its : list hitem) : hstate := fold_left hist_step its h0.
-
-Definition item_input (it : hitem) : input := match it with HStep i _ | HCrash i _ _ => i end.
 
 (* validity of a history: every input is one the environment can produce at that point *)
 Fixpoint hist_ok (h : hstate) (its : list hitem) : bool :=
